@@ -1,7 +1,7 @@
 #!/usr/bin/env python3
 """Generate the build overlay that instruments the code under test.
 
-usage: gen_overlay.py <repo> <outdir> [noexport]
+usage: gen_overlay.py <repo> <outdir> [noexport|plain]
 
 Nothing in <repo> is modified. Selected files of the CURRENT tree are copied to
 <outdir> with only their import lines rewritten to point at shim packages, and
@@ -14,7 +14,8 @@ import json, os, re, sys
 
 repo = os.path.abspath(sys.argv[1])
 out = os.path.abspath(sys.argv[2])
-noexport = len(sys.argv) > 3 and sys.argv[3] == "noexport"
+noexport = len(sys.argv) > 3 and sys.argv[3] in ("noexport", "plain")
+plain = len(sys.argv) > 3 and sys.argv[3] == "plain"  # shim packages only, no import rewritten
 here = os.path.dirname(os.path.abspath(__file__))
 MOD = "github.com/anthdm/hollywood"
 os.makedirs(out, exist_ok=True)
@@ -24,6 +25,9 @@ report = {"rewritten": [], "missing": []}
 
 def rewrite(rel, subs):
     src = os.path.join(repo, rel)
+    if plain:
+        report["missing"].append(rel + ": not instrumented (plain fallback build)")
+        return
     if not os.path.exists(src):
         report["missing"].append(rel + ": file not found")
         return
